@@ -236,6 +236,8 @@ macro_rules! mixedradix_column_butterflies {
             // Normally, we can fit COMPLEX_PER_VECTOR complex numbers into an AVX register, but we only have `partial_remainder` columns left, so we need special logic to handle these final columns
             let partial_remainder = len_per_row % A::VectorType::COMPLEX_PER_VECTOR;
             if partial_remainder > 0 {
+                #[cfg(feature = "verif_hooks")]
+                crate::verif_hooks::probe(13);
                 let partial_remainder_base = chunk_count * A::VectorType::COMPLEX_PER_VECTOR;
                 let partial_remainder_twiddle_base =
                     self.common_data.twiddles.len() - TWIDDLES_PER_COLUMN;
@@ -350,6 +352,8 @@ macro_rules! mixedradix_column_butterflies {
             // Normally, we can fit COMPLEX_PER_VECTOR complex numbers into an AVX register, but we only have `partial_remainder` columns left, so we need special logic to handle these final columns
             let partial_remainder = len_per_row % A::VectorType::COMPLEX_PER_VECTOR;
             if partial_remainder > 0 {
+                #[cfg(feature = "verif_hooks")]
+                crate::verif_hooks::probe(13);
                 let partial_remainder_base = chunk_count * A::VectorType::COMPLEX_PER_VECTOR;
                 let partial_remainder_twiddle_base =
                     self.common_data.twiddles.len() - TWIDDLES_PER_COLUMN;
